@@ -50,14 +50,14 @@ Definition f4_graph : graph unit :=
 Definition fmt_unit (_ : unit) : jtree := JNull.
 
 Example f4_old_tokens_tail :
-  skipn 53 (to_json_rest_old unit 5 false fmt_unit f4_graph []) =
+  skipn 53 (to_json_rest_old unit 5 false fmt_unit print f4_graph []) =
   [STR (bs "D"); COLON; STR (bs "R"); RB; COMMA; RK; RB].
 Proof. vm_compute. reflexivity. Qed.
 
 Theorem json_dangling_comma_refuted :
-  exists (g : graph unit), parse_json (to_json_rest_old unit 5 false fmt_unit g []) = None.
+  exists (g : graph unit), parse_json (to_json_rest_old unit 5 false fmt_unit print g []) = None.
 Proof. exists f4_graph. vm_compute. reflexivity. Qed.
 
 Example f4_repaired :
-  parse_json (to_json_rest unit 5 false fmt_unit f4_graph []) = Some (json_tree unit 5 false fmt_unit f4_graph []).
+  parse_json (to_json_rest unit 5 false fmt_unit print f4_graph []) = Some (json_tree unit 5 false fmt_unit f4_graph []).
 Proof. vm_compute. reflexivity. Qed.
